@@ -151,6 +151,8 @@ type chanNet struct {
 	nodes []*node
 	links map[*node][]*node
 	hold  bool
+	// drop, when set, decides per message whether the wire loses it
+	drop  func(from *node, data []byte) bool
 	held  []wireMsg
 	seq   int64
 	wg    sync.WaitGroup
@@ -234,7 +236,7 @@ func (nt *chanNet) onSend(from *node, data []byte) {
 		}
 	}
 	nt.mu.Lock()
-	if nt.closed {
+	if nt.closed || (nt.drop != nil && nt.drop(from, cp)) {
 		nt.mu.Unlock()
 		return
 	}
